@@ -297,4 +297,51 @@ static void cz_gen(Ctx& ctx) {
     });
 }
 
+// ------------------------------------------------------------------------------------------- czt call sequences
+// Successive czt()/CztPlan calls that share some of (n, m, w, a) and differ in others: every call must still equal the
+// direct sum for ITS OWN arguments (a result must not depend on the previous call; plan objects must not leak parameters).
+VK_SUB(czs, "czt_sequences");
+static void czs_check(const Json& c, Out& o) {
+    int idx = 0;
+    for (auto& call : c.at("calls").a) {
+        Out oc;
+        cz_check(call, oc);
+        o.evals += oc.evals;
+        for (auto& m : oc.metrics) o.metrics.push_back(m);
+        if (oc.failed) { o.fail("czt-sequence:" + oc.sig, fmt("call %d of the sequence: ", idx) + oc.msg); break; }
+        ++idx;
+    }
+    if (idx >= 2) {
+        uint64_t k = 0xC2;
+        for (auto& call : c.at("calls").a) k = mix(k, key_of(call.geti("n"), call.geti("m"), int(call.getd("theta") * 1e6), int(call.getd("ar") * 1000), int(call.getd("aphi") * 1000)));
+        o.nontrivial(k);
+    }
+    o.label(fmt("calls:%d", int(c.at("calls").size())));
+}
+static void czs_gen(Ctx& ctx) {
+    ctx.rc("random", ctx.by_tier(6000, 60000), [&]() {
+        int n = pick_log(1, 200), m = pick(1, 2 * n);
+        double theta = flip() ? -2 * M_PI / n : pickd(-M_PI, M_PI);
+        double ar = 1.0, aphi = 0.0;
+        int cls = pick(int(S_TONE), int(S_GAUSS));
+        long long seed = (long long)seed64();
+        Json calls = Json::array();
+        int ncalls = pick(2, 5);
+        for (int k = 0; k < ncalls; ++k) {
+            if (k > 0) {
+                // mutate exactly one or two of the parameters, keep the others bit-identical
+                int what = pick(0, 5);
+                if (what == 0 || what == 5) { int ac = pick(0, 2); ar = ac == 0 ? 1.0 : ac == 1 ? pickd(0.5, 2.0) : 1.0; aphi = ac == 0 ? 0.0 : pickd(-M_PI, M_PI); if (ar != 1.0 && n * std::fabs(std::log10(ar)) > 250) ar = 1.0; }
+                if (what == 1) m = pick(1, 2 * n);
+                if (what == 2) { n = pick_log(1, 200); m = std::min(m, 2 * n); if (ar != 1.0 && n * std::fabs(std::log10(ar)) > 250) ar = 1.0; }
+                if (what == 3) theta = pickd(-M_PI, M_PI);
+                if (what == 4 || what == 5) seed = (long long)seed64();
+            }
+            calls.push(Json::object().set("n", n).set("m", m).set("theta", theta).set("tcls", "seq").set("ar", ar).set("aphi", aphi)
+                         .set("cls", cls).set("plan", pick(0, 3) == 0 ? 1 : 0).set("dflt", pick(0, 1)).set("seed", seed));
+        }
+        return Json::object().set("calls", calls);
+    });
+}
+
 VK_MAIN("C01")
